@@ -397,9 +397,25 @@ func c12RunAttempt(e *Env, family string, st c12Store, at c12Attempt, omitProg, 
 		e.S.Go("exporter.Stop", func() { ex.Stop() })
 		e.S.Run(100000)
 	}
-	// the attempt
+	// the attempt — in one run of two with a program updating the metrics at the same time
 	attemptDone := false
 	faultFired := false
+	if e.Choose("gen", 2) == 1 {
+		e.S.Go("updater", func() {
+			for i, m := range ms {
+				tuple := make([]string, len(m.Keys))
+				for k := range tuple {
+					tuple[k] = fmt.Sprintf("u%d", i)
+				}
+				d, err := m.GetDatum(tuple...)
+				if err == nil && m.Type == metrics.Int {
+					datum.IncIntBy(d, 1, time.Time{})
+				}
+				simrt.HYield()
+			}
+		})
+		e.Probe("update_during_attempt")
+	}
 	e.S.Go("export", func() { faultFired = at.run(ex); attemptDone = true })
 	quiet := e.S.Run(400000)
 	if at.fault != "" && attemptDone {
